@@ -13,14 +13,15 @@ import io, sys
 CLAIMED = True
 CONFIG = {'assumptions': [
     'stream = BytesIO over exactly the section bytes, size = len(bytes), base_structs = DWARFStructs(le, 32, address_size) '
-    'as DWARFInfo.CFI_entries / EH_CFI_entries pass them',
+    'as DWARFInfo.CFI_entries / EH_CFI_entries pass them (the harness calls these entry points on a DWARFInfo whose '
+    'only section is the generated one)',
     '.eh_frame: 32-bit format only; pointer applications absolute and pcrel; DW_CFA_set_loc in .eh_frame only under '
     'the absolute target-address encoding; version 4 CIE address_size = the container\'s, segment_size = 0',
     'pc-relative values are integers: no wrap-around modulo the address size is demanded',
     "augmentation 'S' is observed as the presence of a True-valued flag key in augmentation_dict; the personality "
     'routine as (encoding byte, encoded value)',
     'register rules of a row are compared as a finite map (sorted by register number)']}
-LEVEL = {'text': 'Machine-checked (Props/C06.v, 18 theorems, closed under the global context): (1) entries round trip: every '
+LEVEL = {'text': 'Machine-checked (Props/C06.v, 24 theorems, closed under the global context): (1) entries round trip: every '
                  'well-formed .debug_frame/.eh_frame section built by the Coq encoders (all producer choices as arguments: '
                  'CIE v1/3/4, DWARF32/64, address size 4/8, byte order, augmentations "" and z+RLPS in any order, nine '
                  'pointer formats x absolute/pcrel, section address, LEB128 paddings, FDE before or after its CIE, zero '
@@ -30,10 +31,15 @@ LEVEL = {'text': 'Machine-checked (Props/C06.v, 18 theorems, closed under the gl
                  'of _parse_entry_at); (2) parse_instructions inverts encode_instrs for all instruction lists at any '
                  'stream position; (3) the model of _decode_CFI_table equals the DWARF 6.4 reference interpreter for all '
                  'instruction lists and alignment factors (simulation relation, induction), on the domain where the '
-                 'final row carries a rule - the complement is a known finding with refutation theorems; lifted to the '
-                 'entries of a section (C06_section_tables); (4) the DW_CFA_* constants, _OPCODE_NAME_MAP, masks and '
-                 '_eh_encoding_to_field regenerated from the live module equal the standard tables. The hand model is '
-                 'pinned to the code by the differential correspondence (impl vs model vs spec on every case).',
+                 'final row carries a rule - the complement is a known finding with refutation theorems, and its exact '
+                 'extent is proved for ALL inputs (C06_table_exact_cie/_fde: the model table is the 6.4 table minus at '
+                 'most the rule-less final row); lifted to the entries of a section (C06_section_tables); (4) the '
+                 'DW_CFA_* constants, _OPCODE_NAME_MAP, masks, _eh_encoding_to_field and the construct trees of '
+                 'Dwarf_CIE_header/EH_CIE_header/Dwarf_FDE_header regenerated from the live modules equal the standard '
+                 'tables/field lists, and the hand model of the header structs equals the interpretation of the '
+                 'generated layouts on all byte strings. The rest of the hand model (entry scan, augmentation, pointer '
+                 'encodings, instruction if-chain, table loop) is pinned to the code by the differential correspondence '
+                 '(impl vs model vs spec on every case, through DWARFInfo.CFI_entries / EH_CFI_entries).',
          'design_ref': '4.6', 'technique': 'Coq proof (induction, simulation relation, cursor lemmas, cache invariant) + extracted-model correspondence',
          'note': 'Trusted: Coq kernel, ExtrOcamlBasic extraction, harness adapters, the specs written from DWARF 5 '
                  '6.4/7.24 and the LSB .eh_frame description. No axioms. Out of the theorems: pc-relative values are '
